@@ -40,6 +40,7 @@ func init() {
 	Plans["C07"].Shared = true
 	Plans["C07"].Race = true
 	Plans["C09"].Cost = true
+	Plans["C09"].Prefixes = append(Plans["C09"].Prefixes, "H_C03_lexer")
 }
 
 type KnownFinding struct {
@@ -219,6 +220,33 @@ func NativeReplay(cfg *CheckConfig, cexPaths []string, race bool, timeoutSec int
 		}
 	}
 	return res, logs.String(), nil
+}
+
+// NativeTest runs a harness-side Go test natively with the overlay.
+func NativeTest(cfg *CheckConfig, run string, timeoutSec int) (string, error) {
+	ov, _, err := BuildOverlay(cfg.VerifDir, cfg.RepoDir, true)
+	if err != nil {
+		return "", err
+	}
+	outDir := filepath.Join(cfg.VerifDir, "out", "overlay")
+	os.MkdirAll(outDir, 0o755)
+	repl := map[string]string{}
+	for virt, data := range ov {
+		rel, _ := filepath.Rel(cfg.RepoDir, virt)
+		real := filepath.Join(outDir, strings.ReplaceAll(rel, "/", "__"))
+		if err := os.WriteFile(real, data, 0o644); err != nil {
+			return "", err
+		}
+		repl[virt] = real
+	}
+	oj, _ := json.Marshal(map[string]interface{}{"Replace": repl})
+	ovPath := filepath.Join(outDir, "overlay.json")
+	os.WriteFile(ovPath, oj, 0o644)
+	cmd := exec.Command("go", "test", "-v", "-vet=off", "-count=1", "-overlay", ovPath, "-run", run, "-timeout", fmt.Sprintf("%ds", timeoutSec), ".")
+	cmd.Dir = cfg.RepoDir
+	cmd.Env = append(goEnv(), "VERIF_TIER="+cfg.Tier)
+	out, err := cmd.CombinedOutput()
+	return string(out), err
 }
 
 func firstLineWith(s string, keys ...string) string {
